@@ -141,6 +141,10 @@ class Server(object):
         with Timeout(self.command_timeout):
             return self.io.recv_command()
 
+    def _flush(self):
+        with Timeout(self.command_timeout):
+            self.io.flush_send()
+
     def _get_message_data(self):
         max_size = self.extensions.getparam('SIZE', filter=int)
         reader = DataReader(self.io, max_size)
@@ -159,7 +163,7 @@ class Server(object):
         self._call_custom_handler('HAVE_DATA', reply, data, err)
 
         self.io.send_reply(reply)
-        self.io.flush_send()
+        self._flush()
 
         self.have_mailfrom = None
         self.have_rcptto = None
@@ -201,7 +205,9 @@ class Server(object):
         """
         if self.context and self.tls_immediately:
             if not self._encrypt_session():
-                tls_failure.send(self.io, flush=True)
+                tls_failure.send(self.io)
+                with Timeout(self.command_timeout, False):
+                    self.io.flush_send()
                 return
 
         command, arg = b'BANNER_', None
@@ -224,12 +230,13 @@ class Server(object):
                     unhandled_error.send(self.io)
                     raise
                 finally:
-                    self.io.flush_send()
+                    self._flush()
 
                 command, arg = self._recv_command()
             except Timeout:
                 timed_out.send(self.io)
-                self.io.flush_send()
+                with Timeout(self.command_timeout, False):
+                    self.io.flush_send()
                 raise ConnectionLost()
 
     def _gather_params(self, remaining):
@@ -320,7 +327,8 @@ class Server(object):
 
         reply = Reply('220', '2.7.0 Go ahead')
         self._call_custom_handler('STARTTLS', reply, self.extensions)
-        reply.send(self.io, flush=True)
+        reply.send(self.io)
+        self._flush()
         self._check_close_code(reply)
 
         if reply.code == '220':
@@ -448,7 +456,8 @@ class Server(object):
 
         reply = Reply('354', 'Start mail input; end with <CRLF>.<CRLF>')
         self._call_custom_handler('DATA', reply)
-        reply.send(self.io, flush=True)
+        reply.send(self.io)
+        self._flush()
         self._check_close_code(reply)
 
         if reply.code == '354':
